@@ -1029,7 +1029,8 @@ EFFECT_PRIMS = [
     ("LOCK", lambda c: c.name in ("tokio::sync::Mutex::lock", "std::sync::Mutex::lock", "tokio::sync::Mutex::try_lock", "std::sync::Mutex::try_lock", "tokio::sync::Mutex::blocking_lock",
                                   "tokio::sync::Mutex::lock_owned", "tokio::sync::Mutex::try_lock_owned", "tokio::sync::RwLock::read", "tokio::sync::RwLock::write", "tokio::sync::RwLock::try_read",
                                   "tokio::sync::RwLock::try_write", "std::sync::RwLock::read", "std::sync::RwLock::write", "tokio::sync::Semaphore::acquire", "tokio::sync::Semaphore::try_acquire", "tokio::sync::Semaphore::acquire_owned", "tokio::sync::Semaphore::acquire_many", "tokio::sync::Semaphore::try_acquire_owned")),
-    ("CHAN", lambda c: c.name in ("tokio::sync::mpsc::Sender::send", "tokio::sync::mpsc::Receiver::recv")),
+    ("CHAN", lambda c: c.name in ("tokio::sync::mpsc::Sender::send", "tokio::sync::mpsc::Receiver::recv", "tokio::sync::mpsc::Receiver::try_recv", "tokio::sync::mpsc::Receiver::recv_many",
+                                  "tokio::sync::mpsc::Sender::try_send")),
     ("SLEEP", lambda c: c.name == "tokio::time::sleep"),
     ("OUT", lambda c: c.name == "futures::SinkExt::send"),
     ("RPCCONN", lambda c: c.name in ("cln_rpc::ClnRpc::new", "cln_rpc::ClnRpc::call_typed", "cln_rpc::ClnRpc::call")),
